@@ -118,6 +118,11 @@ type ObsJ struct {
 	Feed    []NotiJ  `json:"feed,omitempty"`
 	Dump    []DumpJ  `json:"dump,omitempty"`
 	Mutated bool     `json:"mutated,omitempty"`
+	// SlackDirty: a cell in the spare capacity (len..cap) of a slice of a
+	// notification handed in (prefix / update path, Elem / Element) is no longer
+	// zero: somebody appended to the caller's slice in place.  Counts as
+	// "input modified" (tag 3) and is compared with the slice-heap model (tag 1).
+	SlackDirty bool `json:"slack_dirty,omitempty"`
 	Msg     string   `json:"msg,omitempty"`
 }
 
@@ -428,6 +433,42 @@ func (r *runner) inputsMutated() bool {
 	return false
 }
 
+// pathSlackDirty: is a cell beyond len of p.Elem / p.Element non-zero?
+func pathSlackDirty(p *pb.Path) bool {
+	if p == nil {
+		return false
+	}
+	for _, e := range p.Elem[len(p.Elem):cap(p.Elem)] {
+		if e != nil {
+			return true
+		}
+	}
+	for _, e := range p.Element[len(p.Element):cap(p.Element)] {
+		if e != "" {
+			return true
+		}
+	}
+	return false
+}
+
+// slackDirty: the spare capacity of every slice of every notification ever
+// handed in (the harness allocates it zeroed).
+func (r *runner) slackDirty() bool {
+	r.mu.Lock()
+	defer r.mu.Unlock()
+	for _, in := range r.inputs {
+		if pathSlackDirty(in.n.Prefix) {
+			return true
+		}
+		for _, u := range in.n.Update {
+			if u != nil && pathSlackDirty(u.Path) {
+				return true
+			}
+		}
+	}
+	return false
+}
+
 // gstream is an in-memory Subscribe stream whose Send the harness gates.
 type gstream struct {
 	grpc.ServerStream
@@ -732,6 +773,7 @@ func (r *runner) apply(o Op) (res ObsJ) {
 	}
 	if res.Res != "panic" {
 		res.Mutated = r.inputsMutated()
+		res.SlackDirty = r.slackDirty()
 	}
 	func() {
 		defer func() {
@@ -1028,7 +1070,7 @@ func caseTerm(t *termer, c *Case) string {
 			d := &ob.Dump[j]
 			dump[j] = t.intern("e", "dump_entry", fmt.Sprintf("DE %s %s %s", t.str(d.Tgt), t.intern("p", "path", names.Path(d.Path)), t.noti(&d.N)))
 		}
-		steps[i] = fmt.Sprintf("STEP (%s) %s %s %s %s", t.op(&c.Ops[i]), t.res(ob), vh.List(feed), t.dump(vh.List(dump)), vh.Bool(ob.Mutated))
+		steps[i] = fmt.Sprintf("STEP (%s) %s %s %s %s", t.op(&c.Ops[i]), t.res(ob), vh.List(feed), t.dump(vh.List(dump)), vh.Bool(ob.Mutated || ob.SlackDirty))
 	}
 	tg := make([]string, len(c.Targets))
 	for i, s := range c.Targets {
@@ -1156,6 +1198,9 @@ func (e *emitter) add(c *Case) {
 		}
 		if ob.Res == "stale" || ob.Res == "future" || ob.Res == "multi" {
 			hasRej = true
+		}
+		if ob.SlackDirty {
+			e.meta.Hist("input-slack-written")
 		}
 		if ob.Mutated {
 			e.meta.Hist("input-mutated")
